@@ -60,6 +60,9 @@ def op_pool(ctx, lays):
         ops.append({"kind": "parse", "f": frame(l["cls"], l["id"], P + rng.randbytes(rng.randrange(1, 4))).hex(), "mode": l["m"], "pbf": pbf})
         # wrong mode
         ops.append({"kind": "parse", "f": f.hex(), "mode": (l["m"] + 1) % 3, "pbf": pbf})
+        if l["m"] in (1, 2):
+            # input messages with automatic mode resolution
+            ops.append({"kind": "parse", "f": f.hex(), "mode": 3, "pbf": pbf})
         msg0, pre, _ = walk.parse_payload(l["m"], l["cls"], l["id"], pbf, build.zero_hp(l, P))
         if msg0 is not None:
             kw = {}
@@ -86,6 +89,10 @@ def op_pool(ctx, lays):
     # keyword constructions that leave array / group attributes to their nominal value
     for c, i, m, kw in ((0x0A, 0x31, 0, {"version": 0, "numRfBlocks": 2}), (0x02, 0x73, 0, {"gnssId": 5}), (0x0A, 0x31, 0, {"version": 0, "numRfBlocks": 1})):
         ops.append({"kind": "construct", "cls": c, "id": i, "mode": m, "pbf": 1, "kwargs": kw})
+    # the short CFG polls whose mode the SETPOLL heuristic resolves by class/ID (each twice: the second evaluation must agree with the first)
+    for c, i, pl in ((6, 0, b"\x01"), (6, 1, b"\x01\x07"), (6, 2, b"\x00"), (6, 0x31, b"\x00"), (6, 0x31, b"\x01"), (6, 1, b"\xf0\x00")):
+        ops.append({"kind": "parse", "f": frame(c, i, pl).hex(), "mode": 3, "pbf": 1})
+        ops.append({"kind": "parse", "f": frame(c, i, pl).hex(), "mode": 2, "pbf": 1})
     # configuration-database traffic: CFG-VALGET (GET) / CFG-VALSET (SET) frames holding key lists, helpers addressed by integer key ID
     for l in [x for x in lays if x["reachable"] and x["c"] == 0 and x["pbf"] and ((x["name"] == "CFG-VALSET" and x["m"] == 1) or (x["name"] == "CFG-VALGET" and x["m"] == 0))]:
         for _ in range(4):
@@ -148,7 +155,8 @@ def run(ctx):
                 continue
             seen.add((l["m"], l["name"]))
             P = walk.fill(l, "count", rng, cfgdb)
-            msgs.append({"how": "parse", "f": frame(l["cls"], l["id"], P).hex(), "mode": l["m"], "pbf": 1 if l["pbf"] else 0})
+            msgs.append({"how": "parse", "f": frame(l["cls"], l["id"], P).hex(), "mode": l["m"], "pbf": 1 if l["pbf"] else 0,
+                         "defnames": sorted({e["n"] for e in l["lay"] if e["k"] in ("f", "x") and e["x"] == 0 or e["n"].startswith("_")})})
         msgs.append({"how": "construct", "cls": 6, "id": 1, "mode": 1, "kwargs": {"msgClass": 1, "msgID": 7, "rateUART1": 1}})
         msgs.append({"how": "construct", "cls": 6, "id": 0x8B, "mode": 2, "kwargs": {"payload": {"hex": "00000000"}}})
         for k in range(0, len(msgs), 50):
